@@ -371,7 +371,7 @@ def main(tier, seed, workers=None):
         case["events"] = [(tuple(e[0]), e[1]) for e in case["events"]]
         return case
 
-    explore(run, cases(tier, seed), lambda c: run_case(normalise(c)), workers, chunk=64)
+    explore(run, cases(tier, seed), lambda c: run_case(normalise(c)), workers, chunk=64, reversed_pass=(tier == "thorough"))
     run.states = max(1, len(run.state_hashes))
     run.transitions = run.extra.get("assignment_events", 0)
     run.traces = run.transitions
